@@ -72,6 +72,12 @@ def keys_of(unit):
                         k[p1] = b1
                         k[p2] = b2
                         yield bytes(k)
+    elif kind == 'preimage':
+        # keys constructed (reference hash run backwards) so that the raw hash is exactly a boundary value:
+        # Long.MIN_VALUE (the one hash Cassandra maps to MAX_VALUE), its neighbours, -1, 0, 1, MAX_VALUE
+        for target in BOUNDARY_HASHES:
+            for free in (0, 1, 0x0123456789abcdef, P.M64, 1 << 63):
+                yield P.murmur3_preimage16(target, free)
     else:
         raise HarnessError('unknown unit %r' % (unit,))
 
@@ -184,7 +190,7 @@ def check_mapping(part):
 def run(ctx):
     P.selftest()
     max_len = 48 if ctx.quick else 96
-    units = [('short',)]
+    units = [('short',), ('preimage',)]
     for length in range(4, max_len + 1):
         for f in FILLERS:
             units.append(('single', length, f))
@@ -207,8 +213,9 @@ def run(ctx):
     ctx.cov['exhaustive'] = True
     ctx.assume('the empty byte string is not a legal partition key (Cassandra rejects it and its partitioners map it to '
                'their MINIMUM sentinel): for it only the raw hash and BytesToken are compared')
-    ctx.assume('keys hashing to Long.MIN_VALUE cannot be found by enumeration; the mapping is checked by rebinding '
-               'cassandra.metadata.murmur3 to return boundary values')
+    ctx.assume('keys hashing to Long.MIN_VALUE cannot be found by enumeration; 16-byte keys with that hash (and with the other '
+               'boundary hashes) are constructed by running the reference hash backwards, and the mapping is also checked by '
+               'rebinding cassandra.metadata.murmur3 to return boundary values')
     ctx.assume('cassandra.cmurmur3 (C) is compared only when it is importable; it is not built in this image')
 
 
